@@ -8,6 +8,7 @@ import (
 	"bytes"
 	"errors"
 	"fmt"
+	"verif/mc/poisondb"
 
 	"verif/mc/ev"
 
@@ -37,6 +38,9 @@ type backend struct {
 
 var backends = []backend{
 	{"memory", func() db.KeyValueStore { return memory.New() }},
+	// memory behind verif/mc/poisondb: every buffer lent to a reader (Get callback argument, UncopiedValue) is scribbled
+	// over when the loan ends, as a store that recycles its read buffers would
+	{"memory+recycled-read-buffers", func() db.KeyValueStore { return poisondb.Wrap(memory.New()) }},
 	{"pebblev2", func() db.KeyValueStore {
 		// the path does not exist on the real file system; every file lives in the private MemFS
 		d, err := pebblev2.New("/nonexistent-verif-c07/v2", func(o *p2.Options) error {
@@ -57,9 +61,9 @@ type blockCase struct {
 	Hdr   *core.Header
 	Txs   []core.Transaction
 	Rcs   []*core.TransactionReceipt
-	SU    *core.StateUpdate       // optional
-	CM    *core.BlockCommitments  // optional
-	Kinds []string                // tx kind per position (for violation keys)
+	SU    *core.StateUpdate      // optional
+	CM    *core.BlockCommitments // optional
+	Kinds []string               // tx kind per position (for violation keys)
 }
 
 type harness struct {
@@ -748,9 +752,12 @@ func (h *harness) runChunk(e *env, cs []*blockCase, deep bool) {
 		}
 	}
 	for i, c := range cs {
-		if len(raws[i]) == 2 && !bytes.Equal(raws[i][0], raws[i][1]) {
-			h.bad("record", "raw bytes memory vs pebblev2", ": differ", c, "both", "")
-			allOK[i] = false
+		for k := 1; k < len(raws[i]); k++ {
+			if !bytes.Equal(raws[i][0], raws[i][k]) {
+				h.bad("record", "raw bytes memory vs pebblev2", ": differ", c, "both", "")
+				allOK[i] = false
+				break
+			}
 		}
 		if allOK[i] {
 			h.r.Outcome(fmt.Sprintf("ok txs=%d", len(c.Txs)))
